@@ -265,7 +265,11 @@ class LiveMulti:
         g.add_edges_from([tuple(e) for e in edges])
         ms = [make_model(nm, inst) for (nm, inst) in instances]
         ks = [n_compartments(nm) for (nm, _) in instances]
-        script = [(i + 0.5) / k for k, init in zip(ks, inits) for i in init]
+        script = []
+        for m, k, init in zip(ms, ks, inits):
+            script += [(i + 0.5) / k for i in init]
+            if hasattr(m, 'INFECTIVITY'):
+                script += [0.5] * g.number_of_edges()      # SIR_VariableInfection.setUp draws one infectivity per edge
         self.oracle = install(Oracle(seed=seed, script={'random': script}))
         self.seq = E.ProcessSequence({(inst if inst is not None else nm): m for (nm, inst), m in zip(instances, ms)})
         cls = E.StochasticDynamics if dynamics == 'stochastic' else E.SynchronousDynamics
@@ -469,7 +473,7 @@ class H(Harness):
     ID = 'C01'
     ANCHOR_FILES = ['epydemic/compartmentedmodel.py', 'epydemic/loci.py', 'epydemic/opinion_model.py', 'epydemic/process.py', 'epydemic/networkdynamics.py', 'epydemic/drawset.py']
     TIE_IMPORT = 'From EpyV Require Import Model.Loci Tie.C01.'
-    CHECK_FN = 'EpyV.Tie.C01.check_case'
+    CHECK_FN = 'EpyV.Tie.C01.check_mcase'
     QUICK_N = 1400
     THOROUGH_N = 4000
     CASE_TIMEOUT = 20
@@ -504,10 +508,41 @@ class H(Harness):
         return {'model': model, 'nodes': nodes, 'edges': [list(e) for e in edges], 'init': init, 'universe': universe,
                 'ops': ops, 'stream': stream, 'dynamics': rnd.choice(['stochastic', 'synchronous'])}
 
+    # named multi-instance combinations on one network (ProcessSequence from a dict)
+    COMBOS = [[['SIR', 'a'], ['SIR', 'b']], [['SIR', 'a'], ['SIS', 'b']], [['Opinion', None], ['SIR', 'x']],
+              [['SIR', 'a'], ['SIS', 'b'], ['SIRS', 'c']], [['Opinion', 'o'], ['Vaccinate', 'v']],
+              [['SIR_VariableInfection', 'v'], ['SIR_FixedRecovery', 'f'], ['SIS_FixedRecovery', 'g']]]
+
+    def _multi(self, rnd, combo, run=False):
+        n = rnd.randrange(2, 8)
+        nodes, edges = make_graph(rnd, n, rnd.choice(self.KINDS))
+        ks = [n_compartments(nm) for nm, _ in combo]
+        inits = [[rnd.randrange(k) for _ in nodes] for k in ks]
+        c = {'instances': combo, 'nodes': nodes, 'edges': [list(e) for e in edges], 'inits': inits, 'universe': list(range(n + 1)),
+             'ops': [], 'stream': 'multi_run' if run else 'multi', 'dynamics': rnd.choice(['stochastic', 'synchronous'])}
+        if run:
+            c.update({'run': True, 'seed': rnd.randrange(1 << 30), 'tmax': 15.0, 'max_calls': 40})
+            return c
+        # the shared network stays fixed: compartment calls through each instance's own API, interleaved
+        for _ in range(rnd.randrange(1, 26)):
+            i = rnd.randrange(len(combo))
+            r = rnd.random()
+            if r < 0.85:
+                op = ['change', rnd.choice(nodes), rnd.randrange(ks[i])]
+            elif r < 0.93:
+                op = ['change', n, rnd.randrange(ks[i])]                 # no such node: raises
+            else:
+                op = ['set', rnd.choice(nodes + [n]), rnd.randrange(ks[i])]   # misuse (node has a compartment) or raises
+            c['ops'].append([i, op])
+        return c
+
     def gen_cases(self, tier, rnd, n):
         out = []
         models = SHIPPED + list(SYNTH)
         for i in range(n):
+            if i % 11 == 7:
+                out.append(self._multi(rnd, self.COMBOS[(i // 11) % len(self.COMBOS)], run=rnd.random() < 0.3))
+                continue
             model = models[i % len(models)] if rnd.random() < 0.8 else rnd.choice(['Opinion', 'SIR', 'synth_cc'])
             stream = rnd.choice(self.STREAMS)
             if i % 9 == 5:
@@ -657,7 +692,74 @@ class H(Harness):
             dumps.append(lv.dump(U, raised=exc))
         return lv, d0, dumps, list(ops)
 
+    def _run_multi(self, case):
+        insts = [tuple(x) for x in case['instances']]
+        lm = LiveMulti(insts, case['nodes'], [tuple(e) for e in case['edges']], case['inits'], case.get('dynamics', 'stochastic'),
+                       seed=case.get('seed', 1))
+        U = case['universe']
+        d0 = [v.dump(U) for v in lm.views]
+        calls = []            # (instance index, op)
+        dumps = []            # after every call: one dump per instance; the exception goes to the caller's dump
+        def snap(i, exc):
+            dumps.append([v.dump(U, raised=(exc if j == i else None)) for j, v in enumerate(lm.views)])
+        if case.get('run'):
+            class Stop(Exception):
+                pass
+
+            def wrap(i, v):
+                orig = v.m.changeCompartment
+
+                def recording(n, c):
+                    exc = None
+                    try:
+                        orig(n, c)
+                    except Exception as e:
+                        exc = type(e).__name__ + ': ' + str(e)[:80]
+                    calls.append([i, ['change', n, v.comps.index(c)]])
+                    snap(i, exc)
+                    if len(calls) >= case.get('max_calls', 60):
+                        raise Stop()
+                v.m.changeCompartment = recording
+            for i, v in enumerate(lm.views):
+                wrap(i, v)
+            lm.seq.setMaximumTime(case.get('tmax', 6.0))
+            try:
+                lm.d.do(lm.params)
+            except Stop:
+                pass
+        else:
+            for (i, op) in case['ops']:
+                exc = lm.views[i].apply(op)
+                calls.append([i, op])
+                snap(i, exc)
+        return lm, d0, dumps, calls
+
+    def _execute_multi(self, case):
+        lm, d0, dumps, calls = self._run_multi(case)
+        parts = []
+        valid = 0
+        for j, v in enumerate(lm.views):
+            ops = [op if i == j else None for (i, op) in calls]       # None: a call made through another instance
+            parts.append({'ops': ops, 'table': v.table(), 'effects': v.effects_table(), 'loci_names': [nm for (nm, _, _) in v.loci],
+                          'other_loci': v.other_loci, 'stray_keys': sorted(v.stray_keys), 'compartments': v.names,
+                          'attr_name': v.m.COMPARTMENT,
+                          'setup': d0[j], 'after': [d[j] for d in dumps],
+                          'init_seen': [d0[j]['attr'][case['universe'].index(n)] for n in case['nodes']]})
+            sh = Shadow(case['nodes'], [tuple(e) for e in case['edges']], case['inits'][j])
+            for op in ops:
+                if op is not None:
+                    valid += 1 if sh.pre(op) else 0
+                    sh.apply(op)
+        names = [p['attr_name'] for p in parts] + [nm for p in parts for nm in p['loci_names']]
+        obs = {'parts': parts, 'calls': calls, 'names_distinct': len(set(names)) == len(names),
+               'stats': {'calls': len(calls), 'calls_pre_ok': valid, 'calls_raised': sum(1 for d in dumps for x in d if x['raised']),
+                         'stream_' + case.get('stream', '?'): 1,
+                         'model_multi:' + '+'.join(nm for nm, _ in case['instances']): 1}}
+        return obs
+
     def execute(self, case):
+        if case.get('instances'):
+            return self._execute_multi(case)
         lv, d0, dumps, ops = self._run(case, case['ops'])
         obs = {'ops': ops, 'table': lv.table(), 'effects': lv.effects_table(), 'loci_names': [nm for (nm, _, _) in lv.loci],
                'other_loci': lv.other_loci, 'stray_keys': sorted(lv.stray_keys), 'compartments': lv.names,
@@ -736,7 +838,7 @@ class H(Harness):
                 if ev['rate'] != ev['pr'] * len(ev['elements']):
                     v.append({'signature': 'rate:singleton:%s' % opname, 'detail': ev})
         if case['model'] == 'SIR_VariableInfection':
-            si = [i for i, nm in enumerate(obs['loci_names']) if nm.endswith('SI')]
+            si = [i for i, nm in enumerate(obs['loci_names']) if nm.split('@')[0].endswith('SI')]
             T, _ = self._truth(obs['table'][si[0]], dump, U)
             if set(single_seen) != T or any(c != 1 for c in single_seen.values()):
                 v.append({'signature': 'rate:singleton-set:%s' % opname, 'detail': {'events_on': sorted(single_seen), 'truth': sorted(T)}})
@@ -748,6 +850,12 @@ class H(Harness):
         sh = Shadow(case['nodes'], [tuple(e) for e in case['edges']], case['init'])
         ok = True
         for op, dump in zip(ops, dumps):
+            if op is None:
+                # a call made through another named instance: this instance's loci must still be its truth
+                v += self._check_dump(case, obs, dump, 'other-instance')
+                if v:
+                    break
+                continue
             if not sh.pre(op):
                 ok = False
             sh.apply(op)
@@ -762,6 +870,17 @@ class H(Harness):
         return v, ok
 
     def direct(self, case, obs):
+        if 'parts' in obs:
+            if not obs['names_distinct']:
+                return [{'signature': 'multi-instance-names-clash', 'detail': [p['attr_name'] for p in obs['parts']]}]
+            v = []
+            for j, part in enumerate(obs['parts']):
+                sub = {'model': case['instances'][j][0], 'nodes': case['nodes'], 'edges': case['edges'], 'init': case['inits'][j],
+                       'universe': case['universe']}
+                for x in self.direct(sub, part):
+                    x = dict(x); x['signature'] = 'instance[%s]:%s' % (case['instances'][j][1], x['signature'])
+                    v.append(x)
+            return v
         v = []
         if obs['init_seen'] != [i + 1 for i in case['init']]:
             return [{'signature': 'harness:initial-compartments-not-scripted', 'detail': obs['init_seen'], 'kind': 'harness'}]
@@ -821,21 +940,32 @@ class H(Harness):
 
     @staticmethod
     def _op(op):
+        if op is None:
+            return 'Other'
         k = op[0]
         c = lambda i: L.z(i + 1)
         if k == 'set':
-            return '(SetC %s %s)' % (L.z(op[1]), c(op[2]))
+            return '(Own (SetC %s %s))' % (L.z(op[1]), c(op[2]))
         if k == 'change':
-            return '(ChangeC %s %s)' % (L.z(op[1]), c(op[2]))
+            return '(Own (ChangeC %s %s))' % (L.z(op[1]), c(op[2]))
         if k == 'addnode':
-            return '(AddNode %s %s)' % (L.z(op[1]), 'None' if op[2] is None else '(Some %s)' % c(op[2]))
+            return '(Own (AddNode %s %s))' % (L.z(op[1]), 'None' if op[2] is None else '(Some %s)' % c(op[2]))
         if k == 'rmnode':
-            return '(RemoveNode %s)' % L.z(op[1])
+            return '(Own (RemoveNode %s))' % L.z(op[1])
         if k == 'addedge':
-            return '(AddEdge %s %s)' % (L.z(op[1]), L.z(op[2]))
-        return '(RemoveEdge %s %s)' % (L.z(op[1]), L.z(op[2]))
+            return '(Own (AddEdge %s %s))' % (L.z(op[1]), L.z(op[2]))
+        return '(Own (RemoveEdge %s %s))' % (L.z(op[1]), L.z(op[2]))
 
     def to_coq(self, case, obs):
+        if 'parts' in obs:
+            terms = []
+            for j, part in enumerate(obs['parts']):
+                sub = {'nodes': case['nodes'], 'edges': case['edges'], 'init': case['inits'][j], 'universe': case['universe']}
+                terms.append(self._case_term(sub, part))
+            return '{| m_parts := %s |}' % L.lst(terms)
+        return '{| m_parts := [%s] |}' % self._case_term(case, obs)
+
+    def _case_term(self, case, obs):
         init = [(n, i + 1) for n, i in zip(case['nodes'], case['init'])]
         ops_b = case.get('ops_b') or []
         return ('{| c_tbl := %s; c_effects := %s; c_universe := %s; c_nodes := %s; c_edges := %s; c_init := %s; '
@@ -847,11 +977,18 @@ class H(Harness):
             L.lst(ops_b, self._op), L.lst(obs.get('after_b', []) if ops_b else [], self._obs))
 
     def nontrivial(self, case, obs):
+        if 'parts' in obs:
+            if obs['stats']['calls_pre_ok'] >= 3:
+                return json.dumps([case['instances'], case['nodes'], case['edges'], case['inits'], obs['calls']])
+            return None
         if obs['stats']['calls_pre_ok'] >= 3 and any(any(d['lens']) for d in [obs['setup']] + obs['after']):
             return json.dumps([case['model'], case['nodes'], case['edges'], case['init'], obs['ops'], case.get('ops_b')])
         return None
 
     def sample_view(self, case, obs):
+        if 'parts' in obs:
+            return {'case': case, 'calls': obs['calls'][:10], 'loci_names': [p['loci_names'] for p in obs['parts']],
+                    'loci_at_end': [(p['after'][-1]['loci'] if p['after'] else None) for p in obs['parts']]}
         return {'case': case, 'table': obs['table'], 'loci_names': obs['loci_names'],
                 'loci_after_setup': obs['setup']['loci'], 'loci_at_end': (obs['after'][-1]['loci'] if obs['after'] else None)}
 
